@@ -40,7 +40,7 @@ def generate(rng, tier, idx):
         ops.append({"op": "dump", "path": path})
         variants = sorted(set(v for v, _, _ in K["cells"]))
         ops.append({"op": "im_downgrade", "path": path, "version": pick(rng, ["1.0", "1.1", "1.0"]),
-                    "src_variants": pick(rng, ["all", subset(rng, variants, 0, len(variants))]), "tag": "C10"})
+                    "src_variants": pick(rng, ["all", subset(rng, variants, 0, len(variants))]), "tag": "C10", "drop_empty": rng.random() < 0.4})
         ops.append({"op": "restart", "path": path, "via": pick(rng, ["path", "handle", "loads"]), "offset": rng.randint(0, 500)})
         ops.append({"op": "dump", "path": path})
         ops.append({"op": "restart", "path": path, "via": "path"})
